@@ -347,7 +347,8 @@ class Interp:
                 raise MSFail("index", node)
             return base.items[idx.v]
         if isinstance(base, MMap):
-            return base.d.get(key_of(idx))
+            kv = base.d.get(key_of(idx))
+            return kv[1] if kv is not None else None
         if isinstance(base, str):
             if not (0 <= idx.v < len(base)):
                 raise MSFail("index", node)
@@ -387,6 +388,8 @@ class Interp:
             a = self.ev(e[2], env)
             b = self.ev(e[3], env)
             return self.binop(op, a, b, e)
+        if k == "paren":
+            return self.ev(e[1], env)
         if k == "neg":
             v = self.ev(e[1], env)
             try:
@@ -438,7 +441,7 @@ class Interp:
             if v is not None:
                 return v
             return self.ev(e[2], env)
-        if k == "unwrap":
+        if k in ("unwrap", "unwrap_stmt"):
             v = self.ev(e[2], env)
             c = env.find(e[1])
             if c is None:
